@@ -194,6 +194,25 @@ def r1(ctx):
     SS = variant_names(f, "engine::state::SyncState")
     # ---- who may write state / resync_requested
     allowed = {"state": {PS + "finish", PS + "set_sync_running"}, "resync_requested": {PS + "start_connect", PS + "set_sync_running"}}
+    # abort_connect (release of a declined dial): only Running{Connect} -> Idle, everything else untouched
+    if PS + "abort_connect" in f.bodies:
+        ab = f.body(PS + "abort_connect")
+        ctx.touch(ab)
+        rows = {}
+        for st, og in (("Idle", None), ("Running", "Accept"), ("Running", "Connect")):
+            for rr0 in (0, 1):
+                try:
+                    ret, h, ev = E.run(f, ab.path, [E.href("self")], {"self": _peer(f, E, st, og, resync=E.Int(rr0))})
+                    sname, sfull = _state_of(f, E, h["self"])
+                    rows[(st, og, rr0)] = (sname if sname == "Idle" else sfull, E.describe(E.field(f, h["self"], PSP, "resync_requested"), f))
+                except E.Unsupported as ex:
+                    rows[(st, og, rr0)] = ("UNSUPPORTED-FORM: %s" % ex, None)
+        want = {}
+        for st, og in (("Idle", None), ("Running", "Accept"), ("Running", "Connect")):
+            for rr0 in (0, 1):
+                want[(st, og, rr0)] = ("Idle" if (st == "Idle" or og == "Connect") else "Running(start0,Accept)", str(rr0))
+        ctx.check(rows == want, "C11.R1", ab.path, "transition-table", "abort_connect: %s; spec: a slot held by our own dial is freed, a slot held by an accepted session (or a free one) and the resync flag are left alone" % rows, ab.sp)
+        allowed["state"].add(PS + "abort_connect")
     nw = 0
     for body in f.bodies.values():
         if not body.path.startswith("engine::") or body.rec.get("derived"):
@@ -304,6 +323,131 @@ def r2(ctx):
     ctx.floor("C11.R2", 4)
 
 
+def r3(ctx):
+    """every completion of a session we dialed or accepted releases the slot or leaves it to the session that owns it:
+    the two completion handlers of the live actor evaluated (K6', awaits driven) on the result classes"""
+    from . import feval as E
+    f = ctx.facts
+    L = "engine::live::LiveActor::"
+    hc = f.body(L + "on_sync_via_connect_finished")
+    ctx.touch(*f.scope(hc.path, prefix="engine::live::"))
+    AR = "net::AbortReason"
+    CE = "net::ConnectError"
+    reasons = [v["name"] for v in f.adt(AR)["variants"]]
+    cases = [("Ok", E.Ok(E.Tok("finished")))]
+    for r in reasons:
+        cases.append(("RemoteAbort(%s)" % r, E.Err(E.variant(f, CE, "RemoteAbort", E.variant(f, AR, r)))))
+    for v in f.adt(CE)["variants"]:
+        if v["name"] != "RemoteAbort":
+            cases.append((v["name"], E.Err(E.variant(f, CE, v["name"], *[E.Tok("e%d" % i) for i in range(len(v["fields"]))]))))
+    for label, res in cases:
+        log = []
+
+        def oracle(kind, name, payload, site):
+            if kind == "eq":
+                return None
+            if kind == "call":
+                t, args, it = payload
+                names = [it.tokname(a) for a in args]
+                if name == "on_sync_finished":
+                    log.append(("on_sync_finished", names[1:4]))
+                    return E.Tok("finished-future")
+                if callee_matches(t, r"engine::state::NamespaceStates::(abort_connect|finish)$"):
+                    log.append((name, names[1:3]))
+                    return E.UNIT if name == "abort_connect" else E.NONE
+            if kind == "await" and name == "finished-future":
+                return E.UNIT
+            return None
+        try:
+            out, hp, ev = E.run_async(f, hc.path, [E.href("self"), E.Tok("namespace"), E.Tok("peer"), E.Tok("reason"), res], {"self": E.Tok("actor")}, oracle)
+            got = "returns"
+        except E.Unsupported as ex:
+            got = "UNSUPPORTED-FORM: %s" % ex
+        released = any(e[0] in ("on_sync_finished", "finish", "abort_connect") and e[1][:2] == ["namespace", "peer"] for e in log)
+        ctx.check(got == "returns" and released, "C11.R3", hc.path, "dial-completion-releases-slot[%s]" % label,
+                  "%s; slot-releasing calls %s; spec: when our dial ends - however - the (namespace, peer) slot it took in start_connect is released "
+                  "(finish via on_sync_finished) or released unless an accepted session owns it (abort_connect); returning without either leaves the slot "
+                  "taken forever and no sync with that peer is started again" % (got, log), hc.sp)
+    # the accepting side: the completion handler evaluated on the result classes; the slot was taken by accept_request
+    # (after the Init frame named the document), so every result that names (peer, namespace) must release it
+    ha = f.body(L + "on_sync_via_accept_finished")
+    ctx.touch(*f.scope(ha.path, prefix="engine::live::"))
+    AE = "net::AcceptError"
+    acases = [("Ok", E.Ok(E.struct(f, "net::SyncFinished", namespace=E.Tok("namespace"), peer=E.Tok("peer"), outcome=E.Tok("outcome"), timings=E.Tok("timings"))), True)]
+    for r in reasons:
+        acases.append(("Abort(%s)" % r, E.Err(E.variant(f, AE, "Abort", peer=E.Tok("peer"), namespace=E.Tok("namespace"), reason=E.variant(f, AR, r))), None))
+    acases.append(("Sync{namespace known}", E.Err(E.variant(f, AE, "Sync", peer=E.Tok("peer"), namespace=E.Some(E.Tok("namespace")), error=E.Tok("e"))), True))
+    acases.append(("Close{namespace known}", E.Err(E.variant(f, AE, "Close", peer=E.Tok("peer"), namespace=E.Some(E.Tok("namespace")), error=E.Tok("e"))), True))
+    acases.append(("Sync{before init}", E.Err(E.variant(f, AE, "Sync", peer=E.Tok("peer"), namespace=E.NONE, error=E.Tok("e"))), False))
+    acases.append(("Connect", E.Err(E.variant(f, AE, "Connect", error=E.Tok("e"))), False))
+    for label, res, must in acases:
+        log = []
+
+        def oracle(kind, name, payload, site):
+            if kind == "eq":
+                a2, b2 = str(name), str(payload)
+                return None
+            if kind == "call":
+                t, args, it = payload
+                names = [it.tokname(a) for a in args]
+                if name == "on_sync_finished":
+                    log.append(("on_sync_finished", names[1:4]))
+                    return E.Tok("finished-future")
+                if callee_matches(t, r"engine::state::NamespaceStates::(abort_connect|finish)$"):
+                    log.append((name, names[1:3]))
+                    return E.UNIT if name == "abort_connect" else E.NONE
+            if kind == "await" and name == "finished-future":
+                return E.UNIT
+            return None
+        try:
+            out, hp, ev = E.run_async(f, ha.path, [E.href("self"), res], {"self": E.Tok("actor")}, oracle)
+            got = "returns"
+        except E.Unsupported as ex:
+            got = "UNSUPPORTED-FORM: %s" % ex
+        released = any(e[0] in ("on_sync_finished", "finish") and e[1][:2] == ["namespace", "peer"] for e in log)
+        if must is None:
+            # a request we declined ourselves: it never took the slot; AlreadySyncing must not release the slot of the session that owns it
+            ok = got == "returns" and (not released or "AlreadySyncing" not in label)
+            spec = "a request declined by us never held the slot: releasing on AlreadySyncing would free the running session's slot"
+        else:
+            ok = got == "returns" and released == must
+            spec = "released exactly when the result names the (namespace, peer) whose slot accept_request took"
+        ctx.check(ok, "C11.R3", ha.path, "accept-completion-releases-slot[%s]" % label, "%s; slot-releasing calls %s; spec: %s" % (got, log, spec), ha.sp)
+    # and the acceptor's session function reports the document in every error once the request was allowed (otherwise the
+    # handler above cannot release the slot): evaluated on the acceptor scripts of C10
+    from . import C10
+    bad = []
+    n = 0
+    for frames in C10._scripts(2):
+        if not frames or frames[0] != "Init":
+            continue
+        for proc in C10.PROCS:
+            for send_ok in (True, False):
+                n += 1
+                res, log, final, io = C10.eval_bob(f, frames, "Allow", proc, send_ok, raw=True)
+                if isinstance(res, str) and res.startswith("Err") and not res.startswith("Err(Abort"):
+                    if "Some(ns)" not in res or "peer" not in res:
+                        bad.append("frames=%s process=%s send=%s: %s" % ("+".join(frames), "/".join(proc), send_ok, res[:80]))
+    ctx.check(not bad and n >= 40, "C11.R3", "net::codec::BobState::run", "allowed-session-errors-name-the-document",
+              "%d acceptor scripts with an allowed request: errors not naming (peer, Some(namespace)): %s" % (n, bad[:3]), f.body("net::codec::BobState::run").sp)
+    # on_sync_finished always reaches NamespaceStates::finish for the same (namespace, peer)
+    fin = f.body(L + "on_sync_finished")
+    fb = f.body(fin.path + "::{closure#0}") if (fin.path + "::{closure#0}") in f.bodies else fin
+    ctx.touch(fb)
+    calls = [(bi, t) for x in f.scope(fin.path, prefix="engine::live::") for bi, t in x.calls() if callee_matches(t, r"engine::state::NamespaceStates::finish$")]
+    okf = len(calls) == 1
+    if okf:
+        x = [y for y in f.scope(fin.path, prefix="engine::live::") if any(t is calls[0][1] for _, t in y.calls())][0]
+        from .common import outer_site
+        ob = outer_site(f, fb, x, calls[0][0])
+        # reached on every path from the entry: it dominates every return of the handler body
+        rets = [bi for bi, blk in enumerate(fb.blocks) if blk["t"]["k"] == "return" and bi in fb.reachable(0)]
+        okf = ob is not None and all(fb.dominates(ob, r) for r in rets) and bool(rets)
+    ctx.check(okf, "C11.R3", fin.path, "finish-on-every-path", "on_sync_finished calls NamespaceStates::finish on every path to its return (%d call sites)" % len(calls), fin.sp)
+    ctx.floor("C11.R3", 12)
+
+
 def run(ctx):
     ctx.run_rule("C11.R1", r1)
     ctx.run_rule("C11.R2", r2)
+    ctx.run_rule("C11.R3", r3)
